@@ -200,14 +200,14 @@ def find_omega(g_w, twoth):
         sq_d = n.sqrt(sq_d)
         comega = (a*c + b*sq_d)/d
         somega = (b*c - a*sq_d)/d
-        omega.append(n.arccos(comega))
+        omega.append(n.arccos(n.clip(comega, -1, 1)))
 #        if omega[0] > n.pi:
 #            omega[0] = omega[0] - 2*n.pi
         if somega < 0:
             omega[0] = -omega[0]
         comega = comega - 2*b*sq_d/d
         somega = somega + 2*a*sq_d/d
-        omega.append(n.arccos(comega))
+        omega.append(n.arccos(n.clip(comega, -1, 1)))
 #        if omega[1] > n.pi:
 #            omega[1] = omega[1] - 2*n.pi
         if somega < 0:
